@@ -164,6 +164,10 @@ func (t *taintCtx) taintedOperands(v ssa.Value) []ssa.Value {
 			if t.derived(x, 0) {
 				out = append(out, x)
 			}
+		case *ssa.Call:
+			if _, _, ok := minMaxCall(x); ok && t.derived(x, 0) {
+				out = append(out, x)
+			}
 		}
 	}
 	rec(v, 0)
@@ -177,6 +181,14 @@ func (t *taintCtx) derived(v ssa.Value, d int) bool {
 	}
 	if _, ok := t.leaves[v]; ok {
 		return true
+	}
+	if _, args, ok := minMaxCall(v); ok {
+		for _, a := range args {
+			if t.derived(a, d+1) {
+				return true
+			}
+		}
+		return false
 	}
 	switch x := v.(type) {
 	case *ssa.BinOp:
@@ -230,6 +242,18 @@ func (t *taintCtx) validatedBy(ls []Lit) *ssa.Function {
 	return nil
 }
 
+// minMaxCall recognises the builtins min and max.
+func minMaxCall(v ssa.Value) (string, []ssa.Value, bool) {
+	call, ok := stripConv(v).(*ssa.Call)
+	if !ok {
+		return "", nil, false
+	}
+	if bi, isB := call.Call.Value.(*ssa.Builtin); isB && (bi.Name() == "min" || bi.Name() == "max") {
+		return bi.Name(), call.Call.Args, true
+	}
+	return "", nil, false
+}
+
 func (t *taintCtx) upperOK(v ssa.Value, ls []Lit, d int) bool {
 	v = stripConv(v)
 	if d > 6 {
@@ -252,6 +276,16 @@ func (t *taintCtx) upperOK(v ssa.Value, ls []Lit, d int) bool {
 		if stripConv(y) == v && (op == token.GEQ || op == token.GTR) && !t.derived(x, 0) {
 			return true
 		}
+	}
+	if name, args, ok := minMaxCall(v); ok {
+		// min is bounded above as soon as one operand is; max only when all are
+		n := 0
+		for _, a := range args {
+			if t.upperOK(a, ls, d+1) {
+				n++
+			}
+		}
+		return (name == "min" && n > 0) || n == len(args)
 	}
 	if ph, ok := v.(*ssa.Phi); ok {
 		for i, e := range ph.Edges {
@@ -285,6 +319,19 @@ func (t *taintCtx) lowerOK(v ssa.Value, ls []Lit, d int) bool {
 				return true
 			}
 		}
+	}
+	if name, args, ok := minMaxCall(v); ok {
+		// max is bounded below as soon as one operand is; min only when all are
+		n := 0
+		for _, a := range args {
+			if k, isK := constInt(a); isK && k < 0 {
+				continue // a negative constant bounds nothing from below
+			}
+			if t.lowerOK(a, ls, d+1) {
+				n++
+			}
+		}
+		return (name == "max" && n > 0) || n == len(args)
 	}
 	if ph, ok := v.(*ssa.Phi); ok {
 		for i, e := range ph.Edges {
